@@ -747,6 +747,7 @@ class SimReactor(object):
         self.connect_policy = None  # callable(connector) -> 'ok' | 'refuse' | 'timeout' | None(draw)
         self.spawn_hook = None      # callable(processProtocol, executable, args, env, path) -> transport
         self.connect_log = []       # (kind, dest) in call order
+        self.local_port_hook = None  # callable(connector, drawn_port) -> local port of the next TCP connection
 
     # IReactorTime
     def seconds(self):
@@ -871,6 +872,8 @@ class SimReactor(object):
             if c.kind == 'tcp':
                 sim.net._cid += 1
                 lport = 40000 + sim.net._cid * 7 + sim.ch.draw(5, 'lport')
+                if self.local_port_hook is not None:
+                    lport = self.local_port_hook(c, lport)
                 host = address.IPv4Address('TCP', '127.0.0.1', lport)
                 dest = address.IPv4Address('TCP', c.dest[0], c.dest[1])
             else:
